@@ -60,6 +60,8 @@ struct Out {
     gets: u64,
     gets_after_reopen: u64,
     compressed_objects_seen: u64,
+    mixed_version_gets: u64,
+    mixed_version_setup_failures: Vec<String>,
     valid_rejected: u64,
     distinct: Vec<u64>,
     violations: Vec<Violation>,
@@ -157,6 +159,90 @@ async fn check_values(
                 }
             }
         }
+    }
+}
+
+/// Mixed-version direction through the storage stack: handle A keeps the
+/// collection open with schema v1 while a second connection B on the same
+/// object store opens it with v2 (two more optional fields) and updates
+/// documents. A document B stored with a value under an index A's schema
+/// lineage never allocated (== A's watermark, watermark+1) must be REFUSED by
+/// `A.get` (never handed out silently stripped); a document B touched without
+/// using a new field reads through A with the new value.
+fn mixed_version(level: i32, out: &mut Out) {
+    use std::collections::BTreeMap;
+    let store = Arc::new(InMemory::new());
+    let mk = |version: u64, extra: &[(&str, Ft)]| {
+        let mut b = Schema::builder();
+        b.with_version(version);
+        b.add_field(FieldEntry::new("x".to_string(), grammar::opt(Ft::I64)).expect("entry")).expect("x");
+        b.add_field(FieldEntry::new("y".to_string(), Ft::Text).expect("entry")).expect("y");
+        for (n, t) in extra {
+            b.add_field(FieldEntry::new(n.to_string(), t.clone()).expect("entry")).expect("extra");
+        }
+        b.build().expect("schema")
+    };
+    let cfg = || CollectionConfig { name: "mv".to_string(), description: "mixed version".to_string() };
+    let res: Result<(), String> = util::block_on(async {
+        let db_a = AndaDB::connect(store.clone(), db_config(level)).await.map_err(|e| format!("connect A: {e}"))?;
+        let a = db_a.open_or_create_collection(mk(1, &[]), cfg(), async |_c| Ok(())).await.map_err(|e| format!("open A: {e}"))?;
+        let mut ids = Vec::new();
+        for i in 0..3i64 {
+            let mut d = Document::new(a.schema());
+            d.set_id(0);
+            d.set_field("x", Fv::I64(5 + i)).map_err(|e| e.to_string())?;
+            d.set_field("y", Fv::Text(format!("old{i}"))).map_err(|e| e.to_string())?;
+            ids.push(a.add(d).await.map_err(|e| format!("add: {e}"))?);
+        }
+        db_a.flush().await.map_err(|e| format!("flush A: {e}"))?;
+        // the newer process
+        let db_b = AndaDB::connect(store.clone(), db_config(level)).await.map_err(|e| format!("connect B: {e}"))?;
+        let v2 = mk(2, &[("z1", grammar::opt(Ft::Text)), ("z2", grammar::opt(Ft::U64))]);
+        let b = db_b.open_or_create_collection(v2, cfg(), async |_c| Ok(())).await.map_err(|e| format!("open B: {e}"))?;
+        if b.schema().get_field("z1").is_none() {
+            return Err("B did not upgrade the schema".to_string());
+        }
+        let updates: [(&str, Fv, bool); 3] = [
+            ("z1", Fv::Text("new".into()), true),  // index == A's watermark
+            ("z2", Fv::U64(7), true),              // index == A's watermark + 1
+            ("y", Fv::Text("changed".into()), false), // no index A does not know
+        ];
+        for (id, (field, value, foreign)) in ids.iter().zip(updates) {
+            b.update(*id, BTreeMap::from([(field.to_string(), value.clone())])).await.map_err(|e| format!("update by B: {e}"))?;
+            out.evaluations += 1;
+            out.mixed_version_gets += 1;
+            let got = a.get(*id).await;
+            let problem = match (&got, foreign) {
+                (Ok(d), true) => Some((
+                    "foreign-index-accepted",
+                    format!(
+                        "a newer writer stored {field}={value:?} (an index the older handle's schema never allocated) in document {id}; Collection::get through the handle still on v1 returned {:?} instead of refusing",
+                        d.fields()
+                    ),
+                )),
+                (Err(_), true) => None,
+                (Ok(d), false) => {
+                    let ok = d.get_field("y").is_some_and(|y| model::bit_eq(y, &value))
+                        && d.get_field("x").is_some_and(|x| matches!(x, Fv::I64(_)));
+                    if ok { None } else { Some(("surviving-field-changed", format!("document {id} updated by the newer writer in field y reads {:?} through the older handle", d.fields()))) }
+                }
+                (Err(e), false) => Some(("unreadable", format!("document {id}, updated by the newer writer only in a field both versions share, is refused by the older handle: {e}"))),
+            };
+            if let Some((kind, detail)) = problem {
+                out.violations.push(Violation {
+                    signature: format!("C13|collection|{kind}|older-handle-get"),
+                    summary: format!("compress_level {level}: {detail}"),
+                    replay: json!({"compress_level": level, "mixed_version": field}),
+                });
+            }
+        }
+        let _ = db_b.close().await;
+        let _ = db_a.close().await;
+        Ok(())
+    });
+    if let Err(e) = res {
+        // the scenario could not be set up: not a verdict
+        out.mixed_version_setup_failures.push(e);
     }
 }
 
@@ -342,9 +428,27 @@ fn main() {
             jobs.push((*level, chunk));
         }
     }
+    // one extra job per level: the mixed-version scenario (empty chunk)
+    let replay_mixed = run.replay_file.as_ref().is_some_and(|f| {
+        std::fs::read(f).ok().and_then(|b| serde_json::from_slice::<serde_json::Value>(&b).ok()).is_some_and(|v| !v["replay"]["mixed_version"].is_null())
+    });
+    if replay_mixed {
+        jobs.clear();
+    }
+    if run.replay_file.is_none() || replay_mixed {
+        for level in &levels {
+            jobs.push((*level, Vec::new()));
+        }
+    }
     let outs = util::par_map(jobs, threads, |(level, chunk)| {
         let mut out = Out::default();
-        let r = catch_unwind(AssertUnwindSafe(|| run_level(level, &chunk, &mut out)));
+        let r = catch_unwind(AssertUnwindSafe(|| {
+            if chunk.is_empty() {
+                mixed_version(level, &mut out)
+            } else {
+                run_level(level, &chunk, &mut out)
+            }
+        }));
         if let Err(p) = r {
             let msg = p
                 .downcast_ref::<String>()
@@ -354,7 +458,7 @@ fn main() {
             out.violations.push(Violation {
                 signature: "C13|collection|panic".to_string(),
                 summary: format!("compress_level {level}: panicked: {msg}"),
-                replay: json!({"compress_level": level, "type": chunk[0].ft, "how": "panic"}),
+                replay: json!({"compress_level": level, "type": chunk.first().map(|c| c.ft.clone()), "how": "panic"}),
             });
         }
         (level, out)
@@ -365,6 +469,11 @@ fn main() {
         run.add("gets", o.gets);
         run.add("model_valid_but_rejected", o.valid_rejected);
         run.add("gets_after_reopen", o.gets_after_reopen);
+        run.add("mixed_version_gets_through_older_handle", o.mixed_version_gets);
+        for e in &o.mixed_version_setup_failures {
+            eprintln!("note: mixed-version scenario could not be set up (level {level}): {e}");
+            run.add("mixed_version_scenarios_not_set_up", 1);
+        }
         run.add(&format!("zstd_objects_in_store_level{level}"), o.compressed_objects_seen);
         for d in o.distinct {
             run.distinct(d);
@@ -377,7 +486,7 @@ fn main() {
         }
     }
     run.rule(&format!(
-        "every FieldType of grammar depth <= 2 ({} leaves + {} composites) + the {} narrow depth-3 shapes of part roundtrip{} x every generated valid value (+ budget probes: Vector in an untyped slot, nesting towers of JSON objects / mixed containers of height 64, 65, 70, 130) x zstd compress_level {{0, 3}} (cache off): one collection per shape with schema {{v: T, pad: Text(800 compressible chars)}}, Document::set_field -> Collection::add -> Collection::get, then AndaDB::close, reconnect, open_collection from the persisted schema and get again; compared in the declared variant (bit-exact); distinct = (level, type, value)",
+        "every FieldType of grammar depth <= 2 ({} leaves + {} composites) + the {} narrow depth-3 shapes of part roundtrip{} x every generated valid value (+ budget probes: Vector in an untyped slot, nesting towers of JSON objects / mixed containers of height 64, 65, 70, 130) x zstd compress_level {{0, 3}} (cache off): one collection per shape with schema {{v: T, pad: Text(800 compressible chars)}}, Document::set_field -> Collection::add -> Collection::get, then AndaDB::close, reconnect, open_collection from the persisted schema and get again; compared in the declared variant (bit-exact); plus, per level, a mixed-version scenario: handle A keeps schema v1 open, a second connection B on the same store upgrades to v2 (+2 optional fields) and updates three documents (new field at A's watermark, at watermark+1, a shared field): Collection::get through A must refuse the first two and return the third with the new value; distinct = (level, type, value)",
         lv.l1.len(),
         lv.l2.len(),
         lv.l3.len(),
